@@ -96,7 +96,8 @@ func ProfileFor(prop, tier string, r *Rng) *Profile {
 		scale(2, KOpenQuery)
 	case "C12":
 		scale(3, KSetRel, KRemoveEntity, KSweep, KNewFilter, KRegister, KStats, KNext, KOpenQuery)
-		scale(2, KShrink, KReset)
+		scale(2, KShrink)
+		scale(5, KReset)
 	case "C20":
 		p.Tiny = true
 		p.W[KRegistry] = 0 // histories must stay within 64 component types
